@@ -243,8 +243,10 @@ def parsePfxMac (file : Bytes) : Option PfxMac := do
     let (ctype, wrapped) ← match as with
       | [(0x06, ctype), (0xa0, wrapped)] => some (ctype, wrapped)
       | _ => none
+    -- the code unmarshals the [0] contents into an asn1.RawValue: ANY single-byte tag is taken (OpenSSL
+    -- writes OCTET STRING); only the high-tag-number form changes how the header is read
     let (t2, content, rest2) ← tlv wrapped
-    if t2 ≠ 0x04 ∨ !rest2.isEmpty then none
+    if (t2 &&& 0x1f) = 0x1f ∨ !rest2.isEmpty then none
     let md ← children macData
     let (digestInfo, salt, iters) ← match md with
       | [(0x30, di), (0x04, salt)] => some (di, salt, (1 : Int))
@@ -267,16 +269,16 @@ inductive OpenRes where
   | other                        -- a different error (not produced for the files of the corpus)
 deriving DecidableEq, Repr
 
-/-- Decode/ToPEM up to and including the MAC check, for password runes `rs` -/
-def openPfx (file : Bytes) (rs : List Nat) : Option OpenRes := do
-  let pw ← match bmpString rs with
-    | some pw => some pw
-    | none => none
-  let m ← parsePfxMac file
-  if m.version ≠ 3 ∨ !m.authSafeIsData then return .other
-  match verifyWithRetry m.oidIsSha1 m.salt m.iterations m.digest m.content pw with
-  | (.ok, pw') => return .macOk pw'
-  | (.incorrectPassword, _) => return .incorrectPassword
-  | (.notImplemented, _) => return .other
+/-- Decode/ToPEM up to and including the MAC check, for password runes `rs`;
+    `none` = the password is not UCS-2 encodable or the reader does not know the file's shape -/
+def openPfx (file : Bytes) (rs : List Nat) : Option OpenRes :=
+  match bmpString rs, parsePfxMac file with
+  | some pw, some m =>
+    if m.version ≠ 3 ∨ !m.authSafeIsData then some .other else
+    match verifyWithRetry m.oidIsSha1 m.salt m.iterations m.digest m.content pw with
+    | (.ok, pw') => some (.macOk pw')
+    | (.incorrectPassword, _) => some .incorrectPassword
+    | (.notImplemented, _) => some .other
+  | _, _ => none
 
 end XC.C21
